@@ -850,3 +850,27 @@ def _super(eng, node):
     fnode = fr.mod.functions[fr.qual]
     selfname = fnode.args.args[0].arg
     return SuperProxy(fr.env[selfname], [("name", selfname)], fr.qual.rsplit(".", 1)[0])
+
+
+_ATTR_MATCH = {}
+
+
+def attr_match_fn(ignore):
+    """vermouth.molecule.attributes_match(node, attrs, ignore_keys=ignore) as an uninterpreted predicate over the identities of the two
+    attribute mappings (one predicate per ignore list)"""
+    key = ",".join(sorted(ignore))
+    if key not in _ATTR_MATCH:
+        from .types import TObj
+        _ATTR_MATCH[key] = z3.Function(f"attributes_match[{key}]", TObj.sort, TObj.sort, z3.BoolSort())
+    return _ATTR_MATCH[key]
+
+
+@reg("vermouth.molecule.attributes_match")
+def _attributes_match(eng, node, attributes, template_attributes, ignore_keys=()):
+    ign = list(ignore_keys) if isinstance(ignore_keys, (list, tuple, CList)) else None
+    if ign is None or not all(isinstance(x, str) for x in ign):
+        raise Unsupported("attributes_match with a symbolic ignore list")
+    for v in (attributes, template_attributes):
+        if not (isinstance(v, Rec) and "_id" in v.fields):
+            raise Unsupported("attributes_match on a mapping without a ghost identity field `_id`")
+    return attr_match_fn(ign)(attributes.fields["_id"], template_attributes.fields["_id"])
